@@ -576,6 +576,14 @@ SETTINGS = [
     ("sel-classes", ["--select", "cbo,lcom,clones", "--clone-threshold", "0.8", "--min-cbo", "4"], None),
     ("sel-deps", ["--select", "deps"], None),
     ("sel-dead", ["--select", "deadcode", "--min-severity", "critical"], None),
+    # keys that exist only in the file: sort orders, details, upper bounds, clone type selection
+    ("toml-sort-name", ["--min-complexity", "1"],
+     "[output]\nsort_by = \"name\"\nshow_details = true\n\n[dead_code]\nsort_by = \"file\"\nshow_context = true\ncontext_lines = 2\n\n"
+     "[cbo]\nmax_cbo = 4\nshow_zeros = true\ninclude_builtins = true\n\n[complexity]\nmax_complexity = 25\n\n"
+     "[clones]\nenabled_clone_types = [\"type1\", \"type2\"]\nmin_similarity = 0.7\ngrouping_mode = \"star\"\n"),
+    ("toml-sort-risk", [],
+     "[output]\nsort_by = \"risk\"\n\n[dead_code]\nsort_by = \"line\"\nmin_severity = \"info\"\n\n[cbo]\ninclude_imports = false\n\n"
+     "[clones]\nenabled_clone_types = [\"type3\", \"type4\"]\nmax_similarity = 0.95\ngrouping_mode = \"k_core\"\nk_core_k = 2\n"),
 ]
 
 
@@ -656,15 +664,91 @@ def check_same_response(ck, data, where, stats, sections=True):
         report(ck, "formats disagree for %s: %s" % (where, "; ".join(bad[:4])), {"kind": "formats", "where": where, "problems": bad, "report": base})
 
 
+def broken_file_problems(desc, data):
+    """Files that cannot be parsed are named as errors of each per-file analysis and do not hide the other files."""
+    broken = desc.get("broken") or []
+    if not broken or desc["kind"] == "only_broken":
+        return []
+    bad = []
+    good = [n for n in desc["files"] if n not in broken]
+    U = data.get("summary") or {}
+    for sec, ek, en in (("complexity", "Errors", "complexity_enabled"), ("dead_code", "errors", "dead_code_enabled")):
+        x = data.get(sec)
+        if not U.get(en):
+            continue
+        if x is None:
+            bad.append("section %s is missing although %s can be analysed" % (sec, good))
+            continue
+        errs = x.get(ek) or []
+        for n in broken:
+            if not any(n in e for e in errs):
+                bad.append("%s: the unparsable file %s is not named among the errors %s" % (sec, n, errs))
+        for n in good:
+            if any(n in e for e in errs):
+                bad.append("%s: the parsable file %s is reported as an error" % (sec, n))
+    cx = data.get("complexity") or {}
+    seen = {os.path.basename(f["FilePath"]) for f in (cx.get("Functions") or [])}
+    if cx and ((cx.get("Config") or {}).get("min_complexity") or 0) <= 1 and not set(good) <= seen:
+        bad.append("complexity: functions of %s are missing from the report next to unparsable files" % sorted(set(good) - seen))
+    if cx and cx["Summary"]["FilesAnalyzed"] != len(good):
+        bad.append("complexity: FilesAnalyzed = %s, %d files could be analysed" % (cx["Summary"]["FilesAnalyzed"], len(good)))
+    return bad
+
+
+def order_problems(data):
+    """The item lists are in the order the echoed sort_by names (ties in any order)."""
+    bad = []
+    cx = data.get("complexity")
+    if cx and cx.get("Functions"):
+        by = (cx.get("Config") or {}).get("sort_by")
+        fs = cx["Functions"]
+        rank = {"high": 0, "medium": 1, "low": 2}
+        keys = {"name": [f["Name"] for f in fs], "risk": [rank.get(f["RiskLevel"], 3) for f in fs],
+                "complexity": [-f["Metrics"]["Complexity"] for f in fs]}.get(by)
+        if keys is not None and keys != sorted(keys):
+            bad.append("complexity: functions are not in the echoed order sort_by = %s" % by)
+    dc = data.get("dead_code")
+    if dc and dc.get("files") and (dc.get("config") or {}).get("sort_by") == "file":
+        ks = [f["file_path"] for f in dc["files"]]
+        if ks != sorted(ks):
+            bad.append("dead_code: files are not in the echoed order sort_by = file: %s" % ks)
+    return bad
+
+
+def cli_format_flags(ck, d, flags, data, stats, where, replay):
+    """No format flag (the default format) and two format flags at once."""
+    shutil.rmtree(os.path.join(d, ".pyscn", "reports"), ignore_errors=True)
+    rc, out, err = lib.pyscn(["analyze", "--no-open"] + flags + ["."], d)
+    stats["cli_runs"] += 1
+    path = R.latest(d, "html")
+    if path is None or os.path.getsize(path) == 0:
+        report(ck, "no report written when no format flag is given for %s (exit %s): %s" % (where, rc, err[-200:]), dict(replay, format="default"))
+    else:
+        bad = R.compare_numbers(R.html_numbers(open(path).read()), R.terminal_numbers(err), "default-format (HTML) report", "terminal summary")
+        if bad:
+            report(ck, "the report written without a format flag disagrees with its own run (%s): %s" % (where, "; ".join(bad[:3])), dict(replay, format="default"))
+    for pair in (["--json", "--yaml"], ["--csv", "--html"]):
+        shutil.rmtree(os.path.join(d, ".pyscn", "reports"), ignore_errors=True)
+        rc, out, err = lib.pyscn(["analyze", "--no-open"] + pair + flags + ["."], d)
+        stats["cli_runs"] += 1
+        rep = os.path.join(d, ".pyscn", "reports")
+        written = sorted(os.listdir(rep)) if os.path.isdir(rep) else []
+        if rc == 0 and not written:
+            report(ck, "analyze %s exits 0 without having written any report (%s): %s" % (" ".join(pair), where, err.strip().splitlines()[0][:200] if err.strip() else ""),
+                   dict(replay, format="+".join(pair)), {"part": "cli-formats", "flags": "two-format-flags", "exit": 0, "written": 0})
+        elif len(written) > 1:
+            report(ck, "analyze %s wrote several reports %s" % (" ".join(pair), written), dict(replay, format="+".join(pair)))
+
+
 def part_e2e(ck, rng, labels, thorough, stats):
     plans = [("normal", True), ("normal", False), ("no_classes", False), ("clean", False), ("no_functions", False), ("only_classes", False),
-             ("empty_file", False)]
+             ("empty_file", False), ("with_broken_file", False), ("only_broken", False)]
     if thorough:
         plans += [("normal", False)] * 6
     for pi, (kind, full) in enumerate(plans):
         d = lib.fresh_dir("c16_p%d" % pi)
         desc = R.make_project(d, rng, kind, full)
-        settings = SETTINGS if kind == "normal" else [SETTINGS[0], SETTINGS[1], SETTINGS[7]]
+        settings = SETTINGS if kind == "normal" else ([SETTINGS[0]] if kind == "only_broken" else [SETTINGS[0], SETTINGS[1], SETTINGS[7]])
         for si, (sname, flags, toml) in enumerate(settings):
             set_toml(d, toml)
             rc, data, err = lib.analyze_json(d, flags)
@@ -684,6 +768,8 @@ def part_e2e(ck, rng, labels, thorough, stats):
             stats["reports"] += 1
             for tags, msg in P.items:
                 report(ck, "%s — %s" % (msg, where), dict(replay, tags=tags), tags)
+            for msg in broken_file_problems(desc, data) + order_problems(data):
+                report(ck, "%s — %s" % (msg, where), replay)
             s = data["summary"]
             bad = R.check_stderr_summary(err, s)
             if bad:
@@ -699,6 +785,8 @@ def part_e2e(ck, rng, labels, thorough, stats):
             if si == 0:
                 for vname, v in variants(data):
                     check_same_response(ck, v, where + " / " + vname, stats, sections=False)
+            if pi == 0 and si == 0:
+                cli_format_flags(ck, d, flags, data, stats, where, replay)
             # one CLI run per other format
             if si in (0, 2) or (thorough and kind == "normal"):
                 for fm in ("yaml", "csv", "html"):
